@@ -25,7 +25,8 @@ REQUIRED_COUNTERS = ['tables_checked', 'parents_checked',
                      'pairs_without_markers', 'differential_runs',
                      'pipeline_tables_checked', 'override_runs',
                      'override_names_parent_without_pairs',
-                     'tables_with_a_256_pair_parent']
+                     'tables_with_a_256_pair_parent',
+                     'tables_with_over_255_markers_one_way']
 RULE = ('case = reference-marker table (synthesised from random up / down '
         'tables: dense, sparse, pairs with no marker, pairs short of the '
         'target in one or both directions; or produced by the pipeline) x '
@@ -49,7 +50,9 @@ def gen_cases(tier, seed):
                       'source': 'pipeline' if i % 8 == 7 else 'synthetic',
                       'override_mode': ('moot-parents' if i % 4 == 1
                                         else None),
-                      'shape': ('256-pairs' if i % 20 == 2 else None)})
+                      'shape': ('256-pairs' if i % 20 == 2 else
+                                'many-markers-one-way' if i % 20 == 12
+                                else None)})
     return cases
 
 
@@ -254,6 +257,28 @@ def run_case(spec, work):
         assert priv == 256
         klass = 'private-gene-per-pair'
         ctx.bump('tables_with_a_256_pair_parent')
+    elif spec['source'] == 'synthetic' and \
+            spec.get('shape') == 'many-markers-one-way':
+        # few pairs, hundreds of genes: pairs with 256 / 258 / 512 markers
+        # in one direction and none or a handful in the other (per-pair
+        # gene counts beyond one byte while the pair count is tiny)
+        d = int(rng.integers(1, 4))
+        k = int(rng.integers(3, 7))
+        model = gen.build_from_shape(gen.random_forest(rng, d, k), d, rng)
+        n_genes = int(rng.integers(530, 600))
+        genes = gen.gene_names(rng, n_genes)
+        n_pairs = k * (k - 1) // 2
+        up = np.zeros((n_pairs, n_genes), dtype=bool)
+        down = np.zeros((n_pairs, n_genes), dtype=bool)
+        for row in range(n_pairs):
+            perm = rng.permutation(n_genes)
+            many, few = [(256, 0), (258, 4), (512, 0), (257, 3),
+                         (40, 30)][row % 5]
+            a, b = (up, down) if (row // 5 + row) % 2 == 0 else (down, up)
+            a[row, perm[:many]] = True
+            b[row, perm[many:many + few]] = True
+        klass = 'many-markers-one-way'
+        ctx.bump('tables_with_over_255_markers_one_way')
     elif spec['source'] == 'synthetic':
         d = int(rng.integers(1, 5))
         k = int(rng.integers(2, 10))
@@ -295,7 +320,7 @@ def run_case(spec, work):
     n_genes = len(genes)
     # query: subset of the reference genes plus foreign genes, shuffled
     keep = rng.random(n_genes) < float(rng.choice([0.4, 0.7, 1.0]))
-    if spec.get('shape') == '256-pairs':
+    if spec.get('shape') in ('256-pairs', 'many-markers-one-way'):
         keep[:] = True
     if not keep.any():
         keep[0] = True
@@ -311,6 +336,8 @@ def run_case(spec, work):
         ctx.bump('query_names_extending_an_absent_reference_gene', 2)
     rng.shuffle(query)
     target = int(rng.choice([1, 1, 2, 2, 3, 4, 5, 8, 15]))
+    if spec.get('shape') == 'many-markers-one-way':
+        target = 5
     tree = TaxonomyTree(data=model.to_dict(with_cells=False))
     parents = model.all_parents()
     override = None
